@@ -82,6 +82,7 @@ type SSH struct {
 	phase  string // login, enable-pass, cli, config, confirm-reload, save-q
 	mode   string // "", "config"
 	modified bool  // running config differs from startup (IOS reload question)
+	PrepNoop bool  // IOS: the session-preparation commands change nothing
 	ReloadPending bool
 	ReloadArmed   int  // how often a reload was scheduled
 	Saved         int  // successful write memory
@@ -617,7 +618,9 @@ func (s *SSH) iosLine(l, class, dev string) {
 			switch l {
 			case "no logging console", "line vty 0 15", "logging synchronous level all", "ip subnet-zero", "ip classless":
 				s.rec(l, class, dev, true)
-				s.modified = true
+				if !s.PrepNoop {
+					s.modified = true
+				}
 				s.iosAnswer(l, "")
 				return
 			}
